@@ -176,6 +176,25 @@ def poly_check(ax, case, rec):
     hess = kind in HAS_HESS
     region = gm.region(mesh, info, hess=True) if hess else gm.region(mesh, info)
     X = np.array(mesh.points)
+    if case["pseed"] % 3 == 0:
+        # float64 / float32 copies (and the in-place variant): every array of the copy is the cast of its own original
+        for dt, copy in ((np.float64, True), (np.float32, True), (np.float32, False)):
+            src = region if copy else region.copy()
+            ref = {n_: np.array(getattr(src, n_), dtype=float) for n_ in ("h", "dhdr", "drdX", "dXdr", "dhdX", "dV", "d2hdrdr", "d2hdXdX")
+                   if isinstance(getattr(src, n_, None), np.ndarray)}
+            rc = src.astype(dt, copy=copy)
+            worst, bad = 0.0, None
+            for n_, a in ref.items():
+                b = np.asarray(getattr(rc, n_))
+                if b.dtype != dt or b.shape != a.shape:
+                    worst, bad = float("inf"), n_ + ":dtype/shape"
+                    break
+                d = float(np.abs(b.astype(float) - a).max()) / max(float(np.abs(a).max()), 1e-300)
+                if d > worst:
+                    worst, bad = d, n_
+            rec.close("astype(%s%s): arrays are the casts of their originals" % (np.dtype(dt).name, "" if copy else ", copy=False"), worst,
+                      0.0 if dt == np.float64 else 2e-6, {"array": bad, "hess": hess})
+        rec.label("dtype-copies")
     # degree: element order on affine cells, 1 otherwise
     k = order if info["affine_cells"] else 1
     rng = np.random.default_rng(case["pseed"])
